@@ -237,7 +237,10 @@ func init() {
 		Nontrivial: func(s *scn.Scn, r *scn.Run, m *scn.MResult) bool { return len(m.Journal) > 0 },
 		Opts: func(tier string) (*scnOpts, int, [][]bool) {
 			o := &scnOpts{Forks: []world.Fork{world.Byzantium, world.Shanghai}, Answers: failAlphabet, BoundAll: true, JPModes: []bool{false, true}}
-			o.Gen = scn.GenOpts{MaxDepth: 2, Effects: []scn.Effect{scn.ENone, scn.EJournal, scn.EJournalRef}, Terms: []scn.Term{scn.TStop, scn.TRevert, scn.TInvalid}, Kinds: allKinds, Values: []int{0, 2}, Targets: []scn.Target{scn.TgChild}}
+			o.Gen = scn.GenOpts{MaxDepth: 2, Effects: []scn.Effect{scn.ENone, scn.EJournal, scn.EJournalRef}, Terms: []scn.Term{scn.TStop, scn.TRevert, scn.TInvalid}, Kinds: allKinds, Values: []int{0}, Targets: []scn.Target{scn.TgChild}}
+			if tier == "thorough" {
+				o.Gen.Values = []int{0, 2}
+			}
 			o.Forks = []world.Fork{world.Shanghai}
 			o.Layouts = []bool{false, true}
 			if tier == "thorough" {
@@ -254,7 +257,18 @@ func init() {
 			return o, bound, modes
 		},
 		More: func(tier string) []scnFamily {
-			f := chainFamily(tier, []scn.Effect{scn.ENone, scn.EJournalAA, scn.EJournalABA}, func(o *scnOpts) { o.Gen.PreEffects = nil; o.Gen.Values = []int{0, 2}; o.Layouts = []bool{false, true} })
+			eff := []scn.Effect{scn.ENone, scn.EJournalABA}
+			if tier == "thorough" {
+				eff = []scn.Effect{scn.ENone, scn.EJournalAA, scn.EJournalABA}
+			}
+			f := chainFamily(tier, eff, func(o *scnOpts) {
+				o.Gen.PreEffects = []scn.Effect{scn.ENone, scn.EJournalAA}
+				if tier == "thorough" {
+					o.Gen.PreEffects = nil
+					o.Layouts = []bool{false, true}
+				}
+				o.Gen.Values = []int{0, 2}
+			})
 			f.Modes = [][]bool{{true, true}}
 			return []scnFamily{f}
 		}}
@@ -262,7 +276,7 @@ func init() {
 		Technique: "bounded exhaustive enumeration of scenario call trees with journal groups at every effect position, under all call kinds and failing frames, executed on the real EVM; recorded per-variable change lists compared with the attribution the scenario denotes",
 		Rule:      "scenario trees whose effects are journal groups {register+store+journal; journal twice (repeat); values a,b,a; a reference-typed variable holding 40-byte strings a,b,a} at the pre and post position of every frame x call kinds {CALL, CALLCODE, DELEGATECALL, STATICCALL, CREATE, CREATE2} x call value {0, more than the balance: the attempt is refused} x terminators incl. failing ones x join points off / on with failing answers x storage layout {every contract its own slots and variable names, all contracts the same slots and names}. Oracle: for every account and variable name the map call-index -> value list equals the model's (account = storage context of the executing frame: caller under DELEGATECALL/CALLCODE, new contract during creation; call index = innermost open CALL/CREATE node; immediate repeats collapsed; entries of failed frames kept), and no entry exists under any other account/variable. non-trivial = distinct executions that journaled at least one value",
 		Bounds:    func(t string) map[string]any { _, b, _ := c10.Opts(t); return map[string]any{"answer_deviation_bound": b} },
-		Quick:     130 * time.Second, Thorough: 40 * time.Minute, Run: c10.run, Replay: c10.replay})
+		Quick:     100 * time.Second, Thorough: 40 * time.Minute, Run: c10.run, Replay: c10.replay})
 
 	// ------------------------------------------------------------ C13
 	c13 := &scnCheck{ID: "C13", Judge: c13Judge,
